@@ -1,33 +1,48 @@
 """C10 — Model-spec metadata indexes the generated columns truthfully.
 
-Correspondence stream (engine `c10`, model `Model/SpecMeta.lean`):
+Correspondence streams (engine `c10`, models `Model/SpecMeta.lean`, `Model/SpecsMeta.lean`):
 
-* `meta`   a real materialisation (`materializer.get_model_matrix(...)`); the harness forwards the
-           recorded `model_spec.structure` (per row: the term's factor expressions in the term's own
-           order, the variable names of every scoped factor, the recorded column names) and
-           `list(model_spec.formula)`. The variable names of a scoped factor are NOT taken from the code's
-           own records (`EvaluatedFactor.variables`) but read by the harness from the factor's source text
-           (`source_uses`: Python's `ast`, every Name in Load context, dotted chains kept whole; the code's
-           records are forwarded only for a factor this reader cannot decide). The model recomputes `column_names`, the labels the matrix
-           carries, `column_indices`, `term_indices`, `term_slices`, `term_variables`,
-           `variable_terms`, `variable_indices` and the outcome of every probe: lookups by Term
-           object (own factor order and reversed), by printed form, by sorted form, by column name,
-           by junk strings, `get_slice`, `get_column_indices`, `get_variable_indices`,
-           `get_term_indices([...])` and `subset([...])` (incl. foreign terms -> error class).
+* `meta`   a real materialisation (`materializer.get_model_matrix(...)`); the harness forwards the recorded
+           `model_spec.structure` (per row: the term's factor expressions in the term's own order; per scoped term and
+           scoped factor the factor expression and its variable records — name, roles, source layer —, `None` kept as
+           `None`; the recorded column names), `list(model_spec.formula)` and, of `encoder_state`, which factors are
+           categorical / hold contrasts. WHICH NAMES a scoped factor reads is NOT taken from the code's own records
+           but read by the harness from the factor's source text (`source_uses`: Python's `ast`; the code's records are
+           forwarded only for a factor this reader cannot decide); role and source of a name are the code's (C17).
+           The model recomputes every derived attribute — `column_names`, the labels the matrix carries,
+           `column_indices`, `term_indices`, `term_slices`, `term_variables`, `variable_terms`, `variable_indices`,
+           `term_factors`, `factors`, `factor_terms`, `factor_variables`, the keys of `factor_contrasts`, `variables`,
+           `variables_by_source`, `required_variables` — and the outcome of every probe: lookups by Term object (own
+           factor order, reversed, with repeated factors), by printed form, by sorted form, by column name, by junk
+           strings, through `[]`, `in`, `.get()`; `get_slice` with ints (negative, bool), slices, other hashable and
+           unhashable objects; `get_column_indices` with a name and with lists of names; `get_variable_indices`;
+           `get_term_indices(...)` and `subset(...)` with the request written as Term objects (the spec's own or
+           hand-made), as strings, as ONE formula string, as a `SimpleFormula`, as a structured formula, with
+           `ordering=` degree / none / sort (the harness forwards the parsed, not yet ordered, term list with
+           per-factor literal flags; the ordering step runs in the model).
+* `meta:nostruct`  the same on a `ModelSpec` that was never materialized (`structure is None`): every
+           structure-derived attribute raises `RuntimeError`, the formula-derived ones answer.
+* `specs`  a structured formula (`y ~ …`, `… | …`, keyword parts, tuples) materialized in one call; the harness
+           forwards the tree of `ModelSpec`s and, per request to `ModelSpecs.subset`, the parsed request tree; requests
+           with the same structure, a part left out, a foreign key, a tuple that is too long, a list where the specs
+           hold a tuple and vice versa, a request without structure, a foreign term.
 * `split`  `Term.FACTOR_MATCHER.finditer` on adversarial strings against `Model.SpecMeta.matchFactors`.
 
 Oracle (implementation only, no model): every clause of the property is evaluated directly on the
 implementation's own objects: labels of the matrix vs `column_names`; the values of `term_indices`
 concatenated in dict order are `0..ncols-1`, each is the block of its structure row, `term_slices`
-select the same; lookups by object / printed form / column name return exactly the block computed
-by walking the structure; `variable_indices[v]` is exactly the set of columns owned by terms one of
+select the same; lookups by object / printed form / column name / column position return exactly the block
+computed by walking the structure; `variable_indices[v]` is exactly the set of columns owned by terms one of
 whose factors uses `v`, judged twice: according to `materializer.factor_cache[expr].variables` (the code's
 own per-factor record: consistency of the derived maps) and according to `source_uses` (the harness's own
 reading of the factor's source text, for every name that resolves in the data, the user context or the
-transforms namespace: a variable passed positionally, by keyword, through `*`/`**`, inside a nested
-call, subscript or conditional is used by the term);
+transforms namespace); the factor side: `term_factors` / `factors` / `factor_terms` are "every term -> its own
+factors" and its exact reverse, `factor_variables[f]` is what the evaluated factor recorded and what its source
+reads, `term_variables[t]` is the union over the factors evaluated for `t`, `variables_by_source` partitions
+`variables` by their source, `required_variables` are the ones drawn from the data;
 `spec.subset(ts).get_model_matrix(data)` has exactly the parent's columns (names and values) of
-those terms, in the order of the subset's formula, on the original data and on a second data set.
+those terms, in the order of the request (as given / stably by degree / sorted), on the original data and on a
+second data set; every part of `specs.subset(ts)` regenerates exactly the matching parent part's columns.
 """
 from __future__ import annotations
 
@@ -46,32 +61,61 @@ REQUIRED_THEOREMS = [
     "blocks_partition",
     "lookup_by_term",
     "lookup_by_term_any_order",
+    "lookup_by_made_term",
     "lookup_by_printed_form",
     "lookup_by_column_name",
+    "get_slice_every_key",
+    "term_mapping_get",
     "variable_indices_exact",
+    "variable_terms_inverse",
+    "factor_maps_inverse",
+    "factor_variables_exact",
+    "term_variables_from_factors",
+    "variables_by_source_partition",
     "subset_regenerates",
+    "subset_succeeds_iff",
+    "subset_any_order",
+    "request_order",
+    "spec_subset",
+    "specs_subset_leafwise",
+    "specs_required_variables",
+    "tables_live",
 ]
 TRUSTED = [
     "modelled, not verified: CPython dict/set semantics (insertion order, hash-then-eq probing) and `re` (the model of "
-    "Term.FACTOR_MATCHER is compared with the real regular expression on every run, stream `split`)",
-    "`hash(str)` is modelled as injective on strings (a 64-bit hash collision between two different strings is outside the model)",
+    "Term.FACTOR_MATCHER is compared with the real regular expression on every run, stream `split`; its pattern text and "
+    "flags are regenerated from the live package, theorem tables_live)",
+    "`hash(str)` is modelled as injective on strings (a 64-bit hash collision between two different strings, or between a "
+    "string and another hashable object handed to get_slice, is outside the model)",
     "parameters of the model: the recorded `structure` itself (which columns a term generates is C02/C03), the parse of a "
-    "`terms_spec` into a term list (C01) and the per-factor variable sets; these are read by the harness from each factor's "
-    "source text with Python's `ast` (`source_uses`: lookup factor = its name, Python factor = every Name in Load context "
-    "with its longest dotted chain, back-quoted names restored) and NOT from formulaic's own extraction, so `ast.parse` and "
-    "that 40-line reader are trusted; for a factor the reader cannot decide (names bound inside the expression, back-quotes "
-    "next to triple-quoted strings) the code's own record is forwarded and the oracle judges nothing; the values regenerated for one structure "
-    "row (`gen` in `Model.SpecMeta.replay`) — that a replayed row reproduces the original values is C04 and is checked here "
-    "only by the oracle on the real code",
-    "pandas/numpy/scipy/narwhals assembly of the matrix is modelled as positional (`list`) or name-keyed (`dict`) assembly",
+    "`terms_spec` into an unordered term list or a structured tree (C01/C19; the ordering step and everything after it is "
+    "in the model), role and source layer of a variable (C17) and the per-factor variable names; the names are read by the "
+    "harness from each factor's source text with Python's `ast` (`source_uses`: lookup factor = its name, Python factor = "
+    "every Name in Load context with its longest dotted chain, back-quoted names restored) and NOT from formulaic's own "
+    "extraction, so `ast.parse` and that 40-line reader are trusted; for a factor the reader cannot decide (names bound "
+    "inside the expression, back-quotes next to triple-quoted strings) the code's own record is forwarded and the oracle "
+    "judges nothing; which factors `encoder_state` records as categorical with contrasts (C11); the values regenerated for "
+    "one structure row (`gen` in `Model.SpecMeta.replay`) — that a replayed row reproduces the original values is C04 and "
+    "is checked here only by the oracle on the real code",
+    "pandas/numpy/scipy/narwhals assembly of the matrix is modelled as positional (`list`) or name-keyed (`dict`) assembly; "
+    "which (materializer, output) pairs keep repeated labels is probed on the live package on every run (Gen/SpecMetaTable.lean, "
+    "theorem tables_live)",
+    "`Structured` (the container of a ModelSpecs) is the model of C19 (`Model/Structured.lean`); `_map`'s "
+    "`try func(obj, context) except TypeError: func(obj)` retry is not modelled (no modelled branch raises TypeError there)",
 ]
 ASSUMPTIONS = [
-    "term_ranges_partition, lookup_*, variable_indices_exact, subset_regenerates assume that no two rows of the structure hold "
-    "equal terms (a dict keyed by Term cannot hold both); formulas with a repeated term are reachable only through "
+    "term_ranges_partition, lookup_*, variable_indices_exact, variable_terms_inverse, term_variables_from_factors, subset_* "
+    "assume that no two rows of the structure hold equal terms (a dict keyed by Term cannot hold both); spec_subset assumes "
+    "the same of the formula's terms (factor_maps_inverse does not); formulas with a repeated term are reachable only through "
     "Formula.differentiate or an explicit term list and are reported as finding C10-F1",
     "lookup_by_printed_form assumes factor expressions without backticks/newlines (FACTOR_MATCHER cannot split others) and "
     "pairwise different printed forms",
+    "lookup_by_made_term and factor_maps_inverse assume that a Term holds each factor once (Term.__init__ guarantees it)",
     "names_eq_labels for name-keyed assembly (narwhals frames) holds iff the column names are pairwise different (finding C10-F2)",
+    "subset_succeeds_iff, subset_any_order, spec_subset assume that the formula and the structure of the spec hold the same "
+    "terms (SameTerms: true of every materialized spec)",
+    "the third part of term_variables_from_factors assumes one variable record per factor expression (Coherent: the "
+    "materializer's factor cache holds one EvaluatedFactor per expression)",
 ]
 RULE = (
     "meta: frames of 6-9 rows with categorical A,B (1-3 levels, so that rank reduction yields zero-column terms), numeric a,b,x "
@@ -85,9 +129,17 @@ RULE = (
     "back-quoted ones, context scalars, expressions `a + lo`, `[a][0]`, `dict(q=a)['q']`, `a[::-1]`, `(a if deg else x)`, "
     "nested calls to depth 2) are each passed positionally or BY KEYWORD at random (keyword order shuffled), or through "
     "`*pair` / `**kw`, optionally wrapped in I()/center()/{}/np.abs(); x ensure_full_rank x output in "
-    "pandas/numpy/sparse x materializer pandas/narwhals x cluster_by. split: strings over {a,b,:,`,newline,[,]}. "
+    "pandas/numpy/sparse x materializer pandas/narwhals x cluster_by; per case 1-3 subset/get_term_indices requests (0-4 terms "
+    "by index, reversed factor order, a foreign term, repeats) written as own Term objects / hand-made Term objects / strings / "
+    "one formula string / a SimpleFormula / a structured formula, ordering in default/degree/none/sort; 1-4 get_slice "
+    "identifiers (ints incl. negative, beyond the end and bool; slices; None, float, tuple, numpy integer, bytes, frozenset; "
+    "list, dict, set); Term probes with repeated factors. meta:nostruct: the same on an unmaterialized ModelSpec (8 cases). "
+    "meta:rediff: a materialized spec after ModelSpec.differentiate (8 cases): the structure of the original terms must be gone. "
+    "specs: structured formulas lhs~rhs, a|b, a|b|c, lhs~a|b, root+extra keys, keys with a tuple root (40 cases) with 3-6 "
+    "requests each (same structure, a part dropped, an extra key, a longer tuple, list-for-tuple, tuple-for-list, no "
+    "structure, a foreign term). split: strings over {a,b,:,`,newline,[,]}. "
     "non-trivial = the structure has an interaction whose factors are not sorted, or a zero-column term, or a multi-column "
-    "term, or a call with a keyword argument; distinct by canonical JSON"
+    "term, or a call with a keyword argument, or the case is a structured formula; distinct by canonical JSON"
 )
 
 FACTOR_MATCHER = re.compile(r"(?:^|(?<=:))(`?)(?P<factor>[^`]+?)\1(?=:|$)")
@@ -339,7 +391,27 @@ def gen_meta_case(rng, tier, p_call=0.1):
             "rev": rng.random() < 0.4,
             "foreign": rng.random() < 0.12,
             "dup": rng.random() < 0.1,
+            # how the request is written: Term objects, strings, ONE formula string, a SimpleFormula, a structured formula
+            "form": rng.choice(["terms", "terms", "strs", "strs", "formula", "sformula", "structured"]),
+            "icpt": rng.random() < 0.3,
+            "ordering": rng.choice([None, None, "degree", "none", "none", "sort"]),
+            "fresh": rng.random() < 0.3,  # Term objects written by hand (new Factor objects) instead of the spec's own
         })
+    idents = []
+    for _ in range(rng.randint(1, 4)):
+        r = rng.random()
+        if r < 0.35:
+            idents.append(rng.choice([{"kind": "int", "i": rng.randint(0, 3)}, {"kind": "int", "i": -1, "rel": True},
+                                      {"kind": "int", "i": rng.randint(0, 4), "rel": True}, {"kind": "int", "i": -rng.randint(1, 3)},
+                                      {"kind": "int", "i": 1, "bool": True}]))
+        elif r < 0.6:
+            idents.append({"kind": "slice", "a": rng.choice([None, 0, 1, -2]), "b": rng.choice([None, 2, 5, -1]),
+                           "c": rng.choice([None, None, 2, -1])})
+        elif r < 0.85:
+            idents.append({"kind": "other", "which": rng.choice(["none", "float", "tuple", "npint", "bytes", "frozenset"]),
+                           "i": rng.randint(0, 2)})
+        else:
+            idents.append({"kind": "unhashable", "which": rng.choice(["list", "dict", "set"])})
     return dict(
         kind="meta",
         data=data,
@@ -352,7 +424,42 @@ def gen_meta_case(rng, tier, p_call=0.1):
         cluster=rng.random() < 0.2,
         junk=rng.sample(JUNK, 4),
         subsets=subsets,
+        idents=idents,
+        dupfac=rng.random() < 0.3,
     )
+
+
+# ---- structured formulas materialized in one call (ModelSpecs) and requests to ModelSpecs.subset
+
+def gen_specs_case(rng, tier):
+    data = gen_data(rng)
+    part = lambda: gen_formula(rng, data)
+    lhs = lambda: rng.choice(["a", "b", "x", "b + x", "np.log(x)"])
+    shape = rng.choice(["lr", "lr", "tuple", "tuple3", "lr_tuple", "keys", "keys_tuple"])
+    leaf = lambda s: {"leaf": s}
+    if shape == "lr":
+        sform = {"node": [["lhs", leaf(lhs())], ["rhs", leaf(part())]]}
+    elif shape == "tuple":
+        sform = {"tup": [leaf(part()), leaf(part())]}
+    elif shape == "tuple3":
+        sform = {"tup": [leaf(part()), leaf(part()), leaf(part())]}
+    elif shape == "lr_tuple":
+        sform = {"node": [["lhs", leaf(lhs())], ["rhs", {"tup": [leaf(part()), leaf(part())]}]]}
+    elif shape == "keys":
+        sform = {"node": [["root", leaf(part())], ["extra", leaf(part())]]}
+    else:
+        sform = {"node": [["mean", leaf(part())], ["root", {"tup": [leaf(part()), leaf(part())]}], ["aux", leaf(lhs())]]}
+    probes = []
+    for _ in range(rng.randint(3, 6)):
+        probes.append({
+            "mode": rng.choice(["same", "same", "same", "partial", "extra_key", "long_tuple", "leaf_for_tuple",
+                                "tuple_for_leaf", "flat", "foreign"]),
+            "picks": [[rng.randrange(12) for _ in range(rng.randint(0, 3))] for _ in range(4)],
+            "drop": rng.randrange(4),
+        })
+    return dict(kind="specs", data=data, ctx=gen_ctx(rng), sform=sform, efr=rng.random() < 0.7,
+                output=rng.choice(["pandas", "pandas", "numpy", "sparse"]),
+                mat=rng.choice(["pandas", "pandas", "pandas", "narwhals"]), probes=probes)
 
 
 def gen_split_case(rng):
@@ -372,6 +479,21 @@ def cases(rng, tier):
     # call stream: most factors are Python calls taking data columns / context values positionally, by keyword, via * and **
     for i in range({"quick": 60, "thorough": 700, "search": 40}[tier]):
         yield gen_meta_case(rng, tier, p_call=0.6)
+    # specs never materialized: every structure-derived attribute raises, the formula-derived ones work
+    for i in range({"quick": 8, "thorough": 80, "search": 4}[tier]):
+        c = gen_meta_case(rng, tier)
+        c["nostruct"] = True
+        yield c
+    # a materialized spec differentiated afterwards: the formula changes, so the recorded structure must be gone
+    for i in range({"quick": 8, "thorough": 80, "search": 4}[tier]):
+        c = gen_meta_case(rng, tier)
+        c["build"] = {"formula": " + ".join(":".join(rng.sample(["a", "b", "x"], rng.choice([1, 2, 2, 3])))
+                                            for _ in range(rng.randint(1, 4)))}
+        c["rediff"] = [rng.choice(["a", "b", "x", "zz"]) for _ in range(rng.choice([1, 1, 2]))]
+        yield c
+    # structured formulas -> ModelSpecs -> ModelSpecs.subset
+    for i in range({"quick": 40, "thorough": 500, "search": 30}[tier]):
+        yield gen_specs_case(rng, tier)
     for i in range({"quick": 300, "thorough": 4000, "search": 0}[tier]):
         yield gen_split_case(rng)
     # malformed stream: a formula that names a column that does not exist
@@ -384,6 +506,12 @@ def cases(rng, tier):
 def describe(c):
     if c["kind"] == "split":
         return "split"
+    if c["kind"] == "specs":
+        return "specs:" + ("tuple" if "tup" in c["sform"] else "+".join(k for k, _ in c["sform"]["node"]))
+    if c.get("nostruct"):
+        return "meta:nostruct"
+    if c.get("rediff"):
+        return "meta:rediff"
     b = c["build"]
     how = "formula" if "formula" in b else ("diff" if "diff" in b else "terms")
     text = b.get("formula") or " + ".join(b.get("terms", []))
@@ -393,6 +521,8 @@ def describe(c):
 
 
 def nontrivial(c):
+    if c["kind"] == "specs":
+        return True
     if c["kind"] != "meta":
         return False
     b = c["build"]
@@ -426,6 +556,10 @@ def _res(fn):
 
 def _slice(s):
     return [s.start, s.stop]
+
+
+def _slice3(s):
+    return [None if x is None else int(x) for x in (s.start, s.stop, s.step)]
 
 
 def _dense(mm):
@@ -522,87 +656,260 @@ def _transform_names():
     return list(TRANSFORMS)
 
 
-def impl(c):
-    if c["kind"] == "split":
-        return {"factors": [m.group("factor") for m in __import__("formulaic").parser.types.Term.FACTOR_MATCHER.finditer(c["s"])]}
-    from formulaic import Formula
-    from formulaic.materializers import FormulaMaterializer
+def _vrec(v):
+    roles = {getattr(r, "value", r) for r in v.roles}
+    return dict(n=str(v), v="value" in roles, c="callable" in roles, s=v.source)
 
-    df = make_frame(c["data"])
-    df2 = make_frame(c["data2"])
-    b = c["build"]
-    try:
-        if "formula" in b:
-            formula = Formula(b["formula"])
-        elif "diff" in b:
-            formula = Formula(b["diff"]["formula"]).differentiate(*b["diff"]["wrt"])
-        else:
-            formula = Formula(list(b["terms"]))
-        ctx = make_context(c) if "ctx" in c else {}
-        m = FormulaMaterializer.for_materializer(c["mat"])(df, context=ctx)
-        mm = m.get_model_matrix(
-            formula, ensure_full_rank=c["efr"], output=c["output"],
-            cluster_by="numerical_factors" if c["cluster"] else "none",
-        )
-    except Exception as e:
-        return {"error": type(e).__name__}
-    spec = mm.model_spec
-    out = {}
-    out["structure"] = [
+
+def _vars(vs):
+    """canonical form of a set of Variables: sorted [name, is value, is callable, source]"""
+    return sorted([d["n"], d["v"], d["c"], d["s"]] for d in map(_vrec, vs))
+
+
+def _dump_structure(spec):
+    """the recorded structure as the model reads it (None when the spec was never materialized)"""
+    if spec.structure is None:
+        return None
+    return [
         dict(
             term=_exprs(s.term),
-            svars=[[sorted(str(v) for v in (sf.factor.variables or ())) for sf in st.factors] for st in s.scoped_terms],
-            sexprs=[[sf.factor.expr for sf in st.factors] for st in s.scoped_terms],
+            sterms=[
+                [
+                    dict(
+                        e=sf.factor.factor.expr,
+                        vars=None if sf.factor.variables is None
+                        else sorted((_vrec(v) for v in sf.factor.variables), key=lambda d: d["n"]),
+                    )
+                    for sf in st.factors
+                ]
+                for st in s.scoped_terms
+            ],
             columns=[str(x) for x in s.columns],
         )
         for s in spec.structure
     ]
-    out["formula"] = [_exprs(t) for t in spec.formula]
-    out["printed"] = [repr(s.term) for s in spec.structure]
-    out["labels"] = _labels(mm, c["output"])
-    out["ncols"] = _ncols(mm)
-    out["values"] = _dense(mm)
-    out["fvars"] = {
-        f.expr: sorted(str(v) for v in ((m.factor_cache[f.expr].variables if f.expr in m.factor_cache else None) or ()))
-        for s in spec.structure for f in s.term.factors
-    }
-    # the harness's own reading of each factor's source text (not formulaic's variable extraction)
-    out["uses"] = {
-        f.expr: source_uses(f.expr, f.eval_method.value) for s in spec.structure for f in s.term.factors
-    }
-    out["scope"] = sorted(set(df.columns) | set(ctx) | set(_transform_names()))
-    out["column_names"] = list(spec.column_names)
-    out["column_indices"] = [[k, v] for k, v in spec.column_indices.items()]
-    out["term_indices"] = [[_exprs(k), list(v)] for k, v in spec.term_indices.items()]
-    out["term_slices"] = [[_exprs(k), _slice(v)] for k, v in spec.term_slices.items()]
-    out["term_variables"] = [[_exprs(k), sorted(str(x) for x in v)] for k, v in spec.term_variables.items()]
-    out["variable_terms"] = sorted(
-        [str(k), sorted(":".join(t._factor_key) for t in v)] for k, v in spec.variable_terms.items()
+
+
+def _dump_enc(spec):
+    from formulaic.parser.types import Factor
+
+    out = []
+    for k, v in spec.encoder_state.items():
+        try:
+            out.append(dict(e=str(k), cat=v[0] is Factor.Kind.CATEGORICAL, con="contrasts" in v[1]))
+        except Exception:
+            out.append(dict(e=str(k), cat=False, con=False))
+    return out
+
+
+def _src_key(k):
+    return "n" if k is None else "s" + k
+
+
+ATTRS = ["column_names", "column_indices", "term_indices", "term_slices", "term_variables", "variable_terms",
+         "variable_indices", "term_factors", "factors", "factor_terms", "factor_variables", "factor_contrasts",
+         "variables", "variables_by_source", "required_variables"]
+# attributes the model computes from the formula alone (they cannot raise; the engine sends the bare value)
+NOFAIL = {"term_factors", "factors", "factor_terms", "factor_contrasts"}
+
+
+def _dump_attrs(spec, out):
+    tkey = lambda t: ":".join(t._factor_key)
+    out["column_names"] = _res(lambda: list(spec.column_names))
+    out["column_indices"] = _res(lambda: [[k, v] for k, v in spec.column_indices.items()])
+    out["term_indices"] = _res(lambda: [[_exprs(k), list(v)] for k, v in spec.term_indices.items()])
+    out["term_slices"] = _res(lambda: [[_exprs(k), _slice(v)] for k, v in spec.term_slices.items()])
+    out["term_variables"] = _res(lambda: [[_exprs(k), _vars(v)] for k, v in spec.term_variables.items()])
+    out["variable_terms"] = _res(lambda: sorted([str(k), sorted(tkey(t) for t in v)] for k, v in spec.variable_terms.items()))
+    out["variable_indices"] = _res(lambda: sorted([str(k), list(v)] for k, v in spec.variable_indices.items()))
+    out["term_factors"] = _res(lambda: [[_exprs(k), sorted(f.expr for f in v)] for k, v in spec.term_factors.items()])
+    out["factors"] = _res(lambda: sorted(f.expr for f in spec.factors))
+    out["factor_terms"] = _res(lambda: sorted([f.expr, sorted(tkey(t) for t in v)] for f, v in spec.factor_terms.items()))
+    out["factor_variables"] = _res(lambda: sorted([f.expr, _vars(v)] for f, v in spec.factor_variables.items()))
+    out["factor_contrasts"] = _res(lambda: sorted(f.expr for f in spec.factor_contrasts))
+    out["variables"] = _res(lambda: _vars(spec.variables))
+    out["variables_by_source"] = _res(lambda: [
+        [k, sorted(str(v) for v in vs)] for k, vs in sorted(spec.variables_by_source.items(), key=lambda kv: _src_key(kv[0]))
+    ])
+    if spec.structure is not None:  # on an unmaterialized spec this falls back to the formula (C17's subject)
+        out["required_variables"] = _res(lambda: sorted(str(v) for v in spec.required_variables))
+
+
+def _ident_obj(d):
+    k = d["kind"]
+    if k == "int":
+        return True if d.get("bool") else int(d["i"])
+    if k == "slice":
+        return slice(d["a"], d["b"], d["c"])
+    if k == "other":
+        return {"none": None, "float": 1.5, "tuple": ("a",), "npint": numpy.int64(d.get("i", 0)), "bytes": b"a",
+                "frozenset": frozenset(["a"])}[d["which"]]
+    return {"list": ["a"], "dict": {"a": 1}, "set": {"a"}}[d["which"]]
+
+
+def _parsed_spec(ts, ordering):
+    """What `SimpleFormula.from_spec(ts, ordering=…)` makes of `ts`, up to the ordering step: the parse (C01) is the
+    library's, the ordering is left to the model. Raises whatever the library raises on an unparsable spec."""
+    from formulaic.formula import DEFAULT_NESTED_PARSER, DEFAULT_PARSER, SimpleFormula, StructuredFormula
+
+    kw = {} if ordering is None else {"ordering": ordering}
+    f = SimpleFormula.from_spec(ts, **kw)
+    if isinstance(f, StructuredFormula):
+        return {"p": "structured"}
+    if isinstance(ts, SimpleFormula):
+        return {"p": "formula", "terms": [_exprs(t) for t in ts]}
+    if isinstance(ts, str):
+        pre = list(DEFAULT_PARSER.get_terms(ts)._simplify())
+    else:
+        pre = [t for value in ts for t in (DEFAULT_NESTED_PARSER.get_terms(value) if isinstance(value, str) else [value])]
+    if sorted(tuple(sorted(_exprs(t))) for t in pre) != sorted(tuple(sorted(_exprs(t))) for t in f):
+        raise RuntimeError("harness: the pre-ordering term list is not a rearrangement of the parsed formula")
+    return {"p": "terms", "terms": [dict(t=_exprs(t), lit=[x.eval_method.value == "literal" for x in t.factors]) for t in pre]}
+
+
+def _sub_dump(sub):
+    return dict(
+        rows=None if sub.structure is None else [dict(term=_exprs(s.term), columns=[str(x) for x in s.columns]) for s in sub.structure],
+        names=None if sub.structure is None else list(sub.column_names),
+        formula=[_exprs(t) for t in sub.formula],
     )
-    vi = _res(lambda: sorted([str(k), list(v)] for k, v in spec.variable_indices.items()))
-    out["variable_indices"] = vi["ok"] if "ok" in vi else {"error": vi["err"]}
+
+
+def _build_formula(b):
+    from formulaic import Formula
+
+    if "formula" in b:
+        return Formula(b["formula"])
+    if "diff" in b:
+        return Formula(b["diff"]["formula"]).differentiate(*b["diff"]["wrt"])
+    return Formula(list(b["terms"]))
+
+
+def impl(c):
+    if c["kind"] == "split":
+        return {"factors": [m.group("factor") for m in __import__("formulaic").parser.types.Term.FACTOR_MATCHER.finditer(c["s"])]}
+    if c["kind"] == "specs":
+        return impl_specs(c)
+    from formulaic import ModelSpec
+    from formulaic.formula import SimpleFormula
+    from formulaic.materializers import FormulaMaterializer
+    from formulaic.parser.types import Term as _Term
+
+    df = make_frame(c["data"])
+    df2 = make_frame(c["data2"])
+    nostruct = bool(c.get("nostruct"))
+    try:
+        formula = _build_formula(c["build"])
+        ctx = make_context(c) if "ctx" in c else {}
+        if nostruct:
+            mm = m = None
+            spec = ModelSpec(formula=formula, ensure_full_rank=c["efr"])
+        else:
+            m = FormulaMaterializer.for_materializer(c["mat"])(df, context=ctx)
+            mm = m.get_model_matrix(
+                formula, ensure_full_rank=c["efr"], output=c["output"],
+                cluster_by="numerical_factors" if c["cluster"] else "none",
+            )
+            spec = mm.model_spec
+            if c.get("rediff"):  # ModelSpec.differentiate: new formula, the structure of the old terms is dropped
+                spec = spec.differentiate(*c["rediff"])
+                nostruct = True
+    except Exception as e:
+        return {"error": type(e).__name__}
+    out = {"nostruct": nostruct, "rediff": bool(c.get("rediff"))}
+    out["structure"] = _dump_structure(spec)
+    out["enc"] = _dump_enc(spec)
+    out["formula"] = [_exprs(t) for t in spec.formula]
+    out["fterms"] = [[[f.expr, f.eval_method.value] for f in t.factors] for t in spec.formula]
+    out["printed"] = [repr(s.term) for s in spec.structure or ()]
+    if nostruct:
+        out["labels"], out["ncols"], out["values"], out["fvars"] = None, 0, [], {}
+    else:
+        out["labels"] = _labels(mm, c["output"])
+        out["ncols"] = _ncols(mm)
+        out["values"] = _dense(mm)
+        out["fvars"] = {
+            f.expr: sorted(str(v) for v in ((m.factor_cache[f.expr].variables if f.expr in m.factor_cache else None) or ()))
+            for s in spec.structure for f in s.term.factors
+        }
+    # the harness's own reading of each factor's source text (not formulaic's variable extraction)
+    out["uses"] = {f.expr: source_uses(f.expr, f.eval_method.value) for t in spec.formula for f in t.factors}
+    out["scope"] = sorted(set(df.columns) | set(ctx) | set(_transform_names()))
+    out["datacols"] = sorted(str(x) for x in df.columns)
+    _dump_attrs(spec, out)
 
     # ---- probes
     probes = []
-    terms = [s.term for s in spec.structure]
+    terms = [s.term for s in spec.structure] if spec.structure is not None else list(spec.formula)
     for t in terms:
         ex = _exprs(t)
         probes.append({"k": "term", "t": ex})
         if len(ex) > 1:
             probes.append({"k": "term", "t": ex[::-1]})
+        if c.get("dupfac"):
+            probes.append({"k": "term", "t": ex + ex[:1] + ex[::-1]})  # Term.__init__ drops repeated factors
         probes.append({"k": "str", "s": repr(t)})
         probes.append({"k": "str", "s": ":".join(sorted(ex))})
         if len(ex) > 1:
             probes.append({"k": "str", "s": ":".join(ex[::-1])})
     probes.append({"k": "term", "t": ["zz"]})
-    for n in dict.fromkeys(spec.column_names):
+    names_now = list(spec.column_names) if spec.structure is not None else []
+    for n in dict.fromkeys(names_now):
         probes.append({"k": "str", "s": n})
     for s in c["junk"]:
         probes.append({"k": "str", "s": s})
+    # get_column_indices with a sequence of names (in the caller's order, a name may repeat; an unknown name raises)
+    uniq = list(dict.fromkeys(names_now))
+    if uniq:
+        probes.append({"k": "cols", "names": [uniq[-1], uniq[0], uniq[len(uniq) // 2], uniq[0]]})
+        probes.append({"k": "cols", "names": [uniq[0], c["junk"][0]]})
+    probes.append({"k": "cols", "names": []})
     for v in sorted(set(x for vs in out["fvars"].values() for x in vs)
                     | set(x for vs in out["uses"].values() for x in (vs or ())) | {"zz"}):
         probes.append({"k": "var", "s": v})
-    specs = []
+    for d in c.get("idents", []):
+        d = dict(d)
+        if d["kind"] == "int" and d.get("rel"):  # relative to the number of columns
+            d["i"] = len(names_now) + d["i"]
+        probes.append(dict(d, k="ident"))
+    outs = []
+    for p in probes:
+        if p["k"] == "term":
+            t = _mk_term(p["t"])
+            outs.append({
+                "ti": _res(lambda: list(spec.term_indices[t])),
+                "ts": _res(lambda: _slice(spec.term_slices[t])),
+                "gs": _res(lambda: _slice3(spec.get_slice(t))),
+                "in": _res(lambda: t in spec.term_indices),
+                "get": _res(lambda: (lambda v: None if v is None else list(v))(spec.term_indices.get(t))),
+            })
+        elif p["k"] == "str":
+            s = p["s"]
+            outs.append({
+                "ti": _res(lambda: list(spec.term_indices[s])),
+                "ts": _res(lambda: _slice(spec.term_slices[s])),
+                "gs": _res(lambda: _slice3(spec.get_slice(s))),
+                "ci": _res(lambda: spec.column_indices[s]),
+                "gci": _res(lambda: list(spec.get_column_indices(s))),
+                "in": _res(lambda: s in spec.term_indices),
+                "get": _res(lambda: (lambda v: None if v is None else list(v))(spec.term_indices.get(s))),
+            })
+        elif p["k"] == "cols":
+            ns = list(p["names"])
+            outs.append(_res(lambda: list(spec.get_column_indices(ns))))
+        elif p["k"] == "var":
+            v = p["s"]
+            outs.append(dict(
+                vi=_res(lambda: list(spec.variable_indices[v])),
+                gvi=_res(lambda: list(spec.get_variable_indices([v]))),
+            ))
+        elif p["k"] == "ident":
+            obj = _ident_obj(p)
+            outs.append(dict(gs=_res(lambda: _slice3(spec.get_slice(obj)))))
+
+    # ---- subset / get_term_indices requests: Term objects, strings, one formula string, a SimpleFormula, a
+    # structured formula; default ordering or an explicit `ordering=` keyword
+    subs = []
     for sb in c["subsets"]:
         if not terms:
             chosen = []
@@ -610,65 +917,51 @@ def impl(c):
             chosen = [terms[i % len(terms)] for i in sb["idx"]]
             if not sb["dup"]:
                 chosen = list(dict.fromkeys(chosen))
-        from formulaic.parser.types import Term as _Term
-
-        tl = [_Term(list(t.factors)[::-1] if sb["rev"] else list(t.factors)) for t in chosen]
-        if sb["foreign"]:
-            tl.append(_mk_term(["zz"]))
-        specs.append(tl)
-    outs = []
-    for p in probes:
-        if p["k"] == "term":
-            t = _mk_term(p["t"])
-            outs.append(dict(
-                ti=_res(lambda: list(spec.term_indices[t])),
-                ts=_res(lambda: _slice(spec.term_slices[t])),
-                gs=_res(lambda: _slice(spec.get_slice(t))),
-            ))
-            outs[-1]["in"] = t in spec.term_indices
-        elif p["k"] == "str":
-            s = p["s"]
-            outs.append(dict(
-                ti=_res(lambda: list(spec.term_indices[s])),
-                ts=_res(lambda: _slice(spec.term_slices[s])),
-                gs=_res(lambda: _slice(spec.get_slice(s))),
-                ci=_res(lambda: spec.column_indices[s]),
-                gci=_res(lambda: list(spec.get_column_indices(s))),
-            ))
-            outs[-1]["in"] = s in spec.term_indices
-        elif p["k"] == "var":
-            v = p["s"]
-            outs.append(dict(
-                vi=_res(lambda: list(spec.variable_indices[v])),
-                gvi=_res(lambda: list(spec.get_variable_indices([v]))),
-            ))
-    from formulaic.formula import SimpleFormula
-
-    subs = []
-    for tl in specs:
-        parsed = [_exprs(t) for t in SimpleFormula.from_spec(list(tl))]
-        probes.append({"k": "tidx", "terms": parsed})
-        outs.append(_res(lambda: list(spec.get_term_indices(list(tl)))))
-        probes.append({"k": "subset", "terms": parsed})
+        form = sb.get("form", "terms")
+        ordering = sb.get("ordering")
+        if sb.get("fresh"):
+            rev = lambda t: _mk_term(_exprs(t)[::-1] if sb["rev"] else _exprs(t))
+        else:
+            rev = lambda t: _Term(list(t.factors)[::-1] if sb["rev"] else list(t.factors))
+        if form == "terms":
+            ts = [rev(t) for t in chosen] + ([_mk_term(["zz"])] if sb["foreign"] else [])
+        elif form == "strs":
+            ts = [repr(rev(t)) for t in chosen] + (["zz"] if sb["foreign"] else [])
+        elif form == "formula":
+            body = [repr(rev(t)) for t in chosen if _exprs(t) != ["1"]] + (["zz"] if sb["foreign"] else [])
+            ts = ("" if any(_exprs(t) == ["1"] for t in chosen) or sb.get("icpt") else "0 + ") + (" + ".join(body) or "0")
+        elif form == "sformula":
+            ts = SimpleFormula([rev(t) for t in chosen] + ([_mk_term(["zz"])] if sb["foreign"] else []), _ordering="none")
+        else:  # structured
+            ts = (repr(chosen[0]) if chosen else "a") + " ~ " + (" + ".join(repr(t) for t in chosen[1:]) or "1")
         try:
-            sub = spec.subset(list(tl))
+            parsed = _parsed_spec(ts, ordering)
+        except RuntimeError:
+            raise
+        except Exception:
+            continue  # the request does not parse (C14's subject): not a probe of the metadata
+        kw = {} if ordering is None else {"ordering": ordering}
+        mk = (lambda: ts) if isinstance(ts, (str, SimpleFormula)) else (lambda: list(ts))
+        probes.append({"k": "tidx", "spec": parsed, "ordering": ordering or "degree"})
+        outs.append(_res(lambda: list(spec.get_term_indices(mk(), **kw))))
+        probes.append({"k": "subset", "spec": parsed, "ordering": ordering or "degree", "form": form})
+        try:
+            sub = spec.subset(mk(), **kw)
         except Exception as e:
             outs.append({"err": type(e).__name__})
             subs.append(None)
             continue
-        outs.append({"ok": dict(
-            rows=[dict(term=_exprs(s.term), columns=list(s.columns)) for s in sub.structure],
-            names=list(sub.column_names),
-        )})
-        rec = dict(formula=[_exprs(t) for t in sub.formula])
-        try:
-            m2 = sub.get_model_matrix(df, context=ctx)
-            rec.update(labels=_labels(m2, c["output"]), ncols=_ncols(m2), values=_dense(m2))
-            p3 = spec.get_model_matrix(df2, context=ctx)
-            m3 = sub.get_model_matrix(df2, context=ctx)
-            rec.update(parent2=_dense(p3), values2=_dense(m3))
-        except Exception as e:
-            rec["mat_error"] = type(e).__name__ + ": " + str(e)[:120]
+        outs.append({"ok": _sub_dump(sub)})
+        rec = {}
+        if not nostruct:
+            try:
+                m2 = sub.get_model_matrix(df, context=ctx)
+                rec.update(labels=_labels(m2, c["output"]), ncols=_ncols(m2), values=_dense(m2))
+                p3 = spec.get_model_matrix(df2, context=ctx)
+                m3 = sub.get_model_matrix(df2, context=ctx)
+                rec.update(parent2=_dense(p3), values2=_dense(m3))
+            except Exception as e:
+                rec["mat_error"] = type(e).__name__ + ": " + str(e)[:120]
         subs.append(rec)
     out["probes"] = probes
     out["probe_out"] = outs
@@ -676,31 +969,160 @@ def impl(c):
     return out
 
 
+# ---- ModelSpecs (a structured formula materialized in one call) and ModelSpecs.subset
+
+
+def _py_spec(tree):
+    """JSON tree -> the Python formula specification: node -> dict, tup -> tuple, leaf -> its payload"""
+    if "leaf" in tree:
+        return tree["leaf"]
+    if "tup" in tree:
+        return tuple(_py_spec(t) for t in tree["tup"])
+    return {k: _py_spec(v) for k, v in tree["node"]}
+
+
+def _dump_tree(obj, leaf):
+    from formulaic.utils.structured import Structured
+
+    if isinstance(obj, Structured):
+        return {"node": [[k, _dump_tree(v, leaf)] for k, v in obj._structure.items()]}
+    if isinstance(obj, tuple):
+        return {"tup": [_dump_tree(v, leaf) for v in obj]}
+    return {"leaf": leaf(obj)}
+
+
+def _leaves(tree, path=()):
+    """[(path, payload)] of a dumped tree, depth first"""
+    if "leaf" in tree:
+        return [(path, tree["leaf"])]
+    if "tup" in tree:
+        return [x for i, t in enumerate(tree["tup"]) for x in _leaves(t, path + (i,))]
+    return [x for k, t in tree["node"] for x in _leaves(t, path + (k,))]
+
+
+def _probe_spec(specs, recipe):
+    """the Python `terms_spec` of one ModelSpecs.subset request, built from the parent's own terms"""
+    from formulaic.utils.structured import Structured
+
+    counter = [0]
+
+    def walk(obj):
+        if isinstance(obj, Structured):
+            return {k: walk(v) for k, v in obj._structure.items()}
+        if isinstance(obj, tuple):
+            return tuple(walk(v) for v in obj)
+        terms = list(obj.formula)
+        picks = recipe["picks"][counter[0] % len(recipe["picks"])]
+        counter[0] += 1
+        return [repr(terms[j % len(terms)]) for j in dict.fromkeys(picks)] if terms else []
+
+    spec = walk(specs)
+    mode = recipe["mode"]
+    keys = list(spec)
+    first_tuple = next((k for k in keys if isinstance(spec[k], tuple)), None)
+    first_leaf = next((k for k in keys if isinstance(spec[k], list)), None)
+    if mode == "partial" and len(keys) > 1:
+        del spec[keys[recipe["drop"] % len(keys)]]
+    elif mode == "extra_key":
+        spec["zzz"] = ["a"]
+    elif mode == "long_tuple" and first_tuple is not None:
+        spec[first_tuple] = spec[first_tuple] + (["a"],)
+    elif mode == "leaf_for_tuple" and first_tuple is not None:
+        spec[first_tuple] = list(spec[first_tuple][0])
+    elif mode in ("tuple_for_leaf", "long_tuple", "leaf_for_tuple") and first_leaf is not None:
+        spec[first_leaf] = (spec[first_leaf],)
+    elif mode == "flat":
+        return ["a"]
+    elif mode == "foreign":
+        k = first_leaf if first_leaf is not None else first_tuple
+        if isinstance(spec[k], list):
+            spec[k] = spec[k] + ["zz"]
+        else:
+            spec[k] = (spec[k][0] + ["zz"],) + spec[k][1:]
+    return spec
+
+
+def impl_specs(c):
+    from formulaic import Formula, ModelSpecs
+    from formulaic.formula import SimpleFormula
+    from formulaic.materializers import FormulaMaterializer
+
+    df = make_frame(c["data"])
+    ctx = make_context(c)
+    try:
+        formula = Formula(_py_spec(c["sform"]))
+        m = FormulaMaterializer.for_materializer(c["mat"])(df, context=ctx)
+        mms = m.get_model_matrix(formula, ensure_full_rank=c["efr"], output=c["output"])
+        specs = mms.model_spec
+    except Exception as e:
+        return {"error": type(e).__name__}
+    if not isinstance(specs, ModelSpecs):
+        return {"error": "unstructured"}
+    spec_leaf = lambda s: dict(structure=_dump_structure(s), formula=[_exprs(t) for t in s.formula], enc=_dump_enc(s))
+    out = {"specs": _dump_tree(specs, spec_leaf)}
+    out["required_variables"] = _res(lambda: sorted(str(v) for v in specs.required_variables))
+    out["datacols"] = sorted(str(x) for x in df.columns)
+    out["parent"] = _dump_tree(mms, lambda mm: dict(labels=_labels(mm, c["output"]), ncols=_ncols(mm), values=_dense(mm)))
+    probes, outs, mats = [], [], []
+    for recipe in c["probes"]:
+        ts = _probe_spec(specs, recipe)
+        try:
+            f = SimpleFormula.from_spec(ts)
+        except Exception:
+            continue  # does not parse: not a probe of the metadata
+        probes.append({"parsed": _dump_tree(f, lambda sf: [_exprs(t) for t in sf]), "mode": recipe["mode"]})
+        try:
+            sub = specs.subset(ts)
+        except Exception as e:
+            outs.append({"err": type(e).__name__})
+            mats.append(None)
+            continue
+        outs.append({"ok": _dump_tree(sub, _sub_dump)})
+        try:
+            m2 = sub.get_model_matrix(df, context=ctx)
+            mats.append(_dump_tree(m2, lambda mm: dict(labels=_labels(mm, c["output"]), ncols=_ncols(mm), values=_dense(mm))))
+        except Exception as e:
+            mats.append({"mat_error": type(e).__name__ + ": " + str(e)[:120]})
+    out["probes"], out["probe_out"], out["mats"] = probes, outs, mats
+    return out
+
+
 def request(c, o):
     if c["kind"] == "split":
         return dict(op="split", s=c["s"])
+    if c["kind"] == "specs":
+        if "error" in o or "harness_exception" in o:
+            return dict(op="specs", specs={"node": []}, probes=[])
+        return dict(op="specs", specs=o["specs"], probes=o["probes"])
     if "error" in o or "harness_exception" in o:
-        return dict(op="meta", structure=[], formula=[], probes=[], materializer=c["mat"], output=c["output"])
+        return dict(op="meta", structure=[], formula=[], enc=[], probes=[], materializer=c["mat"], output=c["output"])
     uses = o.get("uses", {})
-    structure = []
-    for r in o["structure"]:
-        r = dict(r)
-        sx = r.pop("sexprs", None)
-        if sx is not None and all(uses.get(e) is not None for st in sx for e in st):
-            r["svars"] = [[list(uses[e]) for e in st] for st in sx]
-        structure.append(r)
+    structure = None
+    if o["structure"] is not None:
+        structure = []
+        for r in o["structure"]:
+            r = dict(r)
+            exprs = [sf["e"] for st in r["sterms"] for sf in st]
+            if all(uses.get(e) is not None for e in exprs):
+                # which names a factor reads comes from the harness's own reading of its source text; the role and the
+                # source layer of each name (C17's subject) are taken from the code's record of that factor
+                def rebuild(sf):
+                    if sf["vars"] is None:
+                        return sf
+                    rec = {d["n"]: d for d in sf["vars"]}
+                    return dict(e=sf["e"], vars=[rec.get(n, dict(n=n, v=True, c=False, s=None)) for n in uses[sf["e"]]])
+
+                r["sterms"] = [[rebuild(sf) for sf in st] for st in r["sterms"]]
+            structure.append(r)
     return dict(
         op="meta",
         structure=structure,
         formula=o["formula"],
+        enc=o["enc"],
         probes=o["probes"],
         materializer=c["mat"],
         output=c["output"],
     )
-
-
-COMPARED = ["column_names", "column_indices", "term_indices", "term_slices", "term_variables", "variable_terms",
-            "variable_indices"]
 
 
 def agree(c, o, m):
@@ -717,14 +1139,30 @@ def _agree(c, o, m):
         return None if o.get("factors") == m.get("factors") else f"FACTOR_MATCHER {o.get('factors')} vs model {m.get('factors')}"
     if "error" in o:
         return None
-    for k in COMPARED:
-        if o[k] != m.get(k):
-            return f"{k}: impl {o[k]} vs model {m.get(k)}"
-    if o["labels"] is not None:
-        if o["labels"] != m["labels"]:
-            return f"labels: impl {o['labels']} vs model {m['labels']}"
-    elif o["ncols"] != len(m["labels"]):
-        return f"number of matrix columns: impl {o['ncols']} vs model {len(m['labels'])}"
+    if c["kind"] == "specs":
+        if o["required_variables"] != {"ok": m.get("required_variables")}:
+            return f"ModelSpecs.required_variables: impl {o['required_variables']} vs model {m.get('required_variables')}"
+        if len(o["probe_out"]) != len(m.get("probes", [])):
+            return "probe count differs"
+        for p, a, b in zip(o["probes"], o["probe_out"], m["probes"]):
+            if a != b:
+                return f"ModelSpecs.subset({p['parsed']}): impl {a} vs model {b}"
+        return None
+    for k in ATTRS:
+        if k not in o:
+            continue
+        want = {"ok": m.get(k)} if k in NOFAIL else m.get(k)
+        if o[k] != want:
+            return f"{k}: impl {o[k]} vs model {want}"
+    if not o.get("nostruct"):
+        ml = m["labels"].get("ok")
+        if ml is None:
+            return f"labels: model {m['labels']}"
+        if o["labels"] is not None:
+            if o["labels"] != ml:
+                return f"labels: impl {o['labels']} vs model {ml}"
+        elif o["ncols"] != len(ml):
+            return f"number of matrix columns: impl {o['ncols']} vs model {len(ml)}"
     if len(o["probe_out"]) != len(m["probes"]):
         return "probe count differs"
     for p, a, b in zip(o["probes"], o["probe_out"], m["probes"]):
@@ -773,6 +1211,19 @@ def oracle(c, o):
     nothing else fails (so that a known finding never masks a new failure on the same case)"""
     if c["kind"] == "split" or "error" in o or "harness_exception" in o:
         return None
+    if c["kind"] == "specs":
+        for why in _specs_reasons(c, o):
+            return why
+        return None
+    if o.get("nostruct"):
+        for why in _factor_reasons(c, o, None):
+            return why
+        if o.get("rediff"):
+            # the columns of the original terms do not describe the differentiated formula: no stale answers
+            for k in ("column_names", "column_indices", "term_indices", "term_slices", "term_variables", "variable_indices"):
+                if "ok" in o[k]:
+                    return f"after differentiate({c['rediff']}) the spec still reports {k} = {o[k]['ok']} of the original terms"
+        return None
     first_known = None
     for why in _reasons(c, o):
         if _known_sig(c, o, why) is None:
@@ -783,6 +1234,8 @@ def oracle(c, o):
 
 
 def _known_sig(c, o, why):
+    if c["kind"] != "meta" or not o.get("structure"):
+        return None
     keys = [_key(r["term"]) for r in o["structure"]]
     names = [n for r in o["structure"] for n in r["columns"]]
     if why.startswith("term ranges:") and len(set(keys)) != len(keys):
@@ -792,32 +1245,126 @@ def _known_sig(c, o, why):
     return None
 
 
+def _factor_reasons(c, o, dup_terms):
+    """the factor side (term_factors / factors / factor_terms / factor_variables / factor_contrasts), judged on the
+    implementation's own maps against the formula's terms"""
+    for k in ("term_factors", "factors", "factor_terms", "factor_contrasts"):
+        if "err" in o[k]:
+            yield f"factor maps: {k} raised {o[k]['err']}"
+            return
+    fterms = o["fterms"]  # per formula term: [[expr, eval_method]]
+    tf = {_key(t): set(fs) for t, fs in o["term_factors"]["ok"]}
+    allf = set(o["factors"]["ok"])
+    ft = {f: set(ts) for f, ts in o["factor_terms"]["ok"]}
+    want_tf = {}
+    for t in fterms:
+        want_tf.setdefault(_key([e for e, _ in t]), set()).update(e for e, _ in t)
+    if tf != want_tf:
+        yield f"factor maps: term_factors {o['term_factors']['ok']} is not 'every term -> its own factors' {sorted(map(str, want_tf.items()))}"
+    want_all = set(e for t in fterms for e, _ in t)
+    if allf != want_all:
+        yield f"factor maps: factors {sorted(allf)} != the factors of the formula's terms {sorted(want_all)}"
+    if set(ft) != allf:
+        yield f"factor maps: factor_terms has keys {sorted(ft)}, the factors are {sorted(allf)}"
+    for f in sorted(allf):
+        want = {":".join(k) for k in want_tf if f in k}
+        if ft.get(f, set()) != want:
+            yield f"factor maps: factor_terms[{f!r}] = {sorted(ft.get(f, ()))}, the terms containing that factor are {sorted(want)}"
+    for k, fs in tf.items():  # mutually inverse
+        for f in fs:
+            if ":".join(k) not in ft.get(f, set()):
+                yield f"factor maps: {f!r} is in term_factors[{':'.join(k)}] but that term is not in factor_terms[{f!r}]"
+    if o.get("structure") is None:
+        return
+    fv = o["factor_variables"]
+    if "err" in fv:
+        if any(sf["vars"] is None for r in o["structure"] for st in r["sterms"] for sf in st):
+            return  # a recorded factor without variables: the code as it is raises (modelled); no clause of the property
+        yield f"factor maps: factor_variables raised {fv['err']}"
+        return
+    fv = {f: [v[0] for v in vs] for f, vs in fv["ok"]}
+    if set(fv) != allf:
+        yield f"factor maps: factor_variables has keys {sorted(fv)}, the factors are {sorted(allf)}"
+    # a factor's variables are the names it reads, for every factor that was evaluated (it has a recorded scoped factor)
+    recorded = {sf["e"] for r in o["structure"] for st in r["sterms"] for sf in st}
+    uses, scope = o.get("uses") or {}, set(o["scope"])
+    for f in sorted(allf):
+        rec = sorted(set(o["fvars"].get(f, []))) if f in recorded else []
+        if sorted(fv.get(f, [])) != rec:
+            yield f"factor maps: factor_variables[{f!r}] = {sorted(fv.get(f, []))}, the evaluated factor recorded {rec}"
+        if f in recorded and uses.get(f) is not None:
+            want = sorted(v for v in uses[f] if v.split(".")[0] in scope)
+            got = sorted(v for v in fv.get(f, []) if v.split(".")[0] in scope)
+            if got != want:
+                yield f"factor maps: factor_variables[{f!r}] = {got}, but the source of the factor reads {want}"
+    # term_variables[t] is the union of factor_variables over the factors of t that were evaluated for t
+    tv = {_key(t): set(v[0] for v in vs) for t, vs in o["term_variables"]["ok"]}
+    for r in o["structure"]:
+        k = _key(r["term"])
+        if dup_terms and k in dup_terms:
+            continue
+        want = set(v for st in r["sterms"] for sf in st for v in fv.get(sf["e"], []))
+        if tv.get(k) != want:
+            yield f"factor maps: term_variables[{':'.join(r['term'])}] = {sorted(tv.get(k, ()))} but its evaluated factors' variables are {sorted(want)}"
+    # variables / variables_by_source / required_variables
+    for k in ("variables", "variables_by_source", "required_variables"):
+        if "err" in o[k]:
+            yield f"variables: {k} raised {o[k]['err']}"
+            return
+    allv = {v[0]: v for v in o["variables"]["ok"]}
+    want_v = set(x for vs in tv.values() for x in vs)
+    if not dup_terms and set(allv) != want_v:
+        yield f"variables: variables {sorted(allv)} != union of term_variables {sorted(want_v)}"
+    by = {k: set(vs) for k, vs in o["variables_by_source"]["ok"]}
+    flat = [v for vs in by.values() for v in vs]
+    if len(flat) != len(set(flat)) or set(flat) != set(allv):
+        yield f"variables: variables_by_source {o['variables_by_source']['ok']} does not partition variables {sorted(allv)}"
+    for k, vs in by.items():
+        for v in vs:
+            if v in allv and allv[v][3] != k:
+                yield f"variables: {v!r} is filed under source {k!r} but its source is {allv[v][3]!r}"
+    want_req = sorted(v for v in allv if allv[v][3] == "data")
+    if o["required_variables"]["ok"] != want_req:
+        yield f"variables: required_variables {o['required_variables']['ok']} != the variables drawn from the data {want_req}"
+    cols = set(o["datacols"])
+    for v in want_req:
+        if v not in cols:
+            yield f"variables: required variable {v!r} is not a column of the data"
+
+
 def _reasons(c, o):
+    for k in ATTRS:
+        if k in o and "err" in o[k] and k != "factor_variables":
+            yield f"attribute {k} raised {o[k]['err']} on a materialized spec"
+            return
     blocks, total = _blocks(o)
     names = [n for r in o["structure"] for n in r["columns"]]
+    column_names = o["column_names"]["ok"]
+    term_indices = o["term_indices"]["ok"]
+    term_slices = o["term_slices"]["ok"]
     # (1) reported names = actual labels
-    if o["column_names"] != names:
-        yield f"column_names {o['column_names']} differ from the recorded structure columns {names}"
+    if column_names != names:
+        yield f"column_names {column_names} differ from the recorded structure columns {names}"
     if o["labels"] is not None:
-        if o["labels"] != o["column_names"]:
-            yield f"names/labels: matrix labels {o['labels']} != column_names {o['column_names']}"
-    if o["ncols"] != len(o["column_names"]):
-        yield f"names/labels: matrix has {o['ncols']} columns, column_names lists {len(o['column_names'])}"
+        if o["labels"] != column_names:
+            yield f"names/labels: matrix labels {o['labels']} != column_names {column_names}"
+    if o["ncols"] != len(column_names):
+        yield f"names/labels: matrix has {o['ncols']} columns, column_names lists {len(column_names)}"
     # (2) term ranges
-    cat = [i for _, v in o["term_indices"] for i in v]
+    cat = [i for _, v in term_indices for i in v]
     if cat != list(range(total)):
         yield f"term ranges: term_indices values concatenate to {cat}, not 0..{total - 1}"
     keys = [_key(t) for t, _, _ in blocks]
     dup_terms = {k for k in keys if keys.count(k) > 1}
     entries = {}
-    for t, v in o["term_indices"]:
+    for t, v in term_indices:
         if v != list(range(v[0], v[0] + len(v))) if v else False:
             yield f"term ranges: term_indices[{t}] = {v} is not contiguous"
         entries[_key(t)] = v
     for bt, a, b in blocks:
         if _key(bt) not in dup_terms and entries.get(_key(bt)) != list(range(a, b)):
             yield f"term ranges: term_indices[{bt}] = {entries.get(_key(bt))} is not the block [{a},{b}) of that term"
-    for (t, sl), (_, v) in zip(o["term_slices"], o["term_indices"]):
+    for (t, sl), (_, v) in zip(term_slices, term_indices):
         if list(range(sl[0], sl[1])) != v:
             yield f"term ranges: term_slices[{t}] = {sl} does not select {v}"
     # (3) lookups
@@ -832,7 +1379,8 @@ def _reasons(c, o):
                 continue
             a, b = rng_of[k]
             want_sl = [a, b] if b > a else [0, 0]
-            if r["ti"] != {"ok": list(range(a, b))} or r["ts"] != {"ok": want_sl} or r["gs"] != {"ok": want_sl} or not r["in"]:
+            if (r["ti"] != {"ok": list(range(a, b))} or r["ts"] != {"ok": want_sl} or r["gs"] != {"ok": want_sl + [None]}
+                    or r["in"] != {"ok": True} or r["get"] != {"ok": list(range(a, b))}):
                 yield f"lookup by term object {p['t']}: got {r}, its columns are [{a},{b})"
         elif p["k"] == "str":
             s = p["s"]
@@ -843,27 +1391,41 @@ def _reasons(c, o):
                 others = [j for j, (t, _, _) in enumerate(blocks) if j != owners[0] and _denotes(s, t, printed[j])]
                 if not others:
                     want_sl = [a, b] if b > a else [0, 0]
-                    if r["ti"] != {"ok": list(range(a, b))} or r["ts"] != {"ok": want_sl} or r["gs"] != {"ok": want_sl} or not r["in"]:
+                    if (r["ti"] != {"ok": list(range(a, b))} or r["ts"] != {"ok": want_sl} or r["gs"] != {"ok": want_sl + [None]}
+                            or r["in"] != {"ok": True} or r["get"] != {"ok": list(range(a, b))}):
                         yield f"lookup by printed form {s!r}: got {r}, the term's columns are [{a},{b})"
             pos = [i for i, n in enumerate(names) if n == s]
             if len(pos) == 1:
                 if r["ci"] != {"ok": pos[0]} or r["gci"] != {"ok": [pos[0]]}:
                     yield f"lookup by column name {s!r}: got {r}, the column is at {pos[0]}"
                 if not any(_denotes(s, t, printed[j]) for j, (t, _, _) in enumerate(blocks)):
-                    if r["gs"] != {"ok": [pos[0], pos[0] + 1]}:
+                    if r["gs"] != {"ok": [pos[0], pos[0] + 1, None]}:
                         yield f"lookup by column name {s!r}: get_slice gave {r['gs']}, the column is at {pos[0]}"
+        elif p["k"] == "cols":
+            if all(names.count(n) == 1 for n in p["names"]):
+                if r != {"ok": [names.index(n) for n in p["names"]]}:
+                    yield f"lookup by column names {p['names']}: got {r}"
+        elif p["k"] == "ident":
+            # a column position selects exactly that column; a slice is handed back as it is
+            if p["kind"] == "int" and 0 <= p["i"] < total and not p.get("bool"):
+                if r["gs"] != {"ok": [p["i"], p["i"] + 1, None]}:
+                    yield f"lookup by column position {p['i']}: get_slice gave {r['gs']}"
+            elif p["kind"] == "slice" and r["gs"] != {"ok": [p["a"], p["b"], p["c"]]}:
+                yield f"get_slice(slice({p['a']}, {p['b']}, {p['c']})) gave {r['gs']}"
         elif p["k"] == "tidx":
-            ks = [_key(t) for t in p["terms"]]
-            if any(k in dup_terms or k not in rng_of for k in ks):
+            ks = _requested_order(p)
+            if ks is None or any(k in dup_terms or k not in rng_of for k in ks):
                 continue
             want = [i for k in ks for i in range(*rng_of[k])]
             if r != {"ok": want}:
-                yield f"get_term_indices({p['terms']}) = {r}, the terms' columns are {want}"
+                yield f"get_term_indices({p['spec']}, ordering={p['ordering']}) = {r}, the terms' columns are {want}"
     # (4) variables
     vi = o["variable_indices"]
-    if isinstance(vi, dict):
-        yield f"variable indices: raised {vi['error']}"
+    if "err" in vi:
+        yield f"variable indices: raised {vi['err']}"
         vi = []
+    else:
+        vi = vi["ok"]
     vi = {k: v for k, v in vi}
     allvars = set(x for vs in o["fvars"].values() for x in vs) | set(vi)
     for v in sorted(allvars):
@@ -902,45 +1464,149 @@ def _reasons(c, o):
                 want = wanted[p["s"]]
                 if r["vi"] != {"ok": want} or r["gvi"] != {"ok": want}:
                     yield f"variable indices: lookup of {p['s']!r} gave {r}, the terms reading it own columns {want}"
+    # (4c) the factor side and the variable sets
+    yield from _factor_reasons(c, o, dup_terms)
     # (5) subset regenerates the parent's columns
     subs = iter(o["subs"])
     for p, r in zip(o["probes"], o["probe_out"]):
         if p["k"] != "subset":
             continue
         rec = next(subs)
-        ks = [_key(t) for t in p["terms"]]
+        ks = _spec_keys(p)
+        if ks is None:
+            continue  # a structured request: an error is the documented outcome
         if any(k not in rng_of for k in ks):
             continue  # foreign term: an error is the documented outcome
         if any(k in dup_terms for k in ks) or len(set(ks)) != len(ks):
             continue
         if "err" in r:
-            yield f"subset({p['terms']}) raised {r['err']} although every term belongs to the spec"
+            yield f"subset({p['spec']}) raised {r['err']} although every term belongs to the spec"
             continue
-        fk = [_key(t) for t in rec["formula"]]
+        fk = [_key(t) for t in r["ok"]["formula"]]
         if sorted(fk) != sorted(ks):
-            yield f"subset({p['terms']}): formula of the subset is {rec['formula']}"
+            yield f"subset({p['spec']}): formula of the subset is {r['ok']['formula']}"
+        # "the column ordering follows the ordering of the terms in terms_spec": as given (ordering none / a
+        # SimpleFormula), or stably by degree (the default)
+        order = _requested_order(p)
+        if order is not None and fk != order:
+            yield f"subset({p['spec']}, ordering={p['ordering']}): the subset's terms are {r['ok']['formula']}, requested order {order}"
+        if [_key(x["term"]) for x in r["ok"]["rows"]] != fk:
+            yield f"subset({p['spec']}): structure rows {[x['term'] for x in r['ok']['rows']]} do not follow its formula {r['ok']['formula']}"
         idx = [i for k in fk for i in range(*rng_of[k])]
         want_names = [names[i] for i in idx]
         if r["ok"]["names"] != want_names:
-            yield f"subset({p['terms']}): column_names {r['ok']['names']}, parent's columns for those terms {want_names}"
+            yield f"subset({p['spec']}): column_names {r['ok']['names']}, parent's columns for those terms {want_names}"
         if "mat_error" in rec:
-            yield f"subset({p['terms']}).get_model_matrix failed: {rec['mat_error']}"
+            yield f"subset({p['spec']}).get_model_matrix failed: {rec['mat_error']}"
             continue
         if c["mat"] == "narwhals" and c["output"] != "sparse" and len(set(want_names)) != len(want_names):
             continue  # name-keyed assembly cannot hold the repeated label (C10-F2, reported by clause 1)
         if rec["labels"] is not None and rec["labels"] != want_names:
-            yield f"subset({p['terms']}): regenerated labels {rec['labels']}, parent's {want_names}"
+            yield f"subset({p['spec']}): regenerated labels {rec['labels']}, parent's {want_names}"
         if rec["ncols"] != len(want_names):
-            yield f"subset({p['terms']}): regenerated {rec['ncols']} columns, parent has {len(want_names)} for those terms"
+            yield f"subset({p['spec']}): regenerated {rec['ncols']} columns, parent has {len(want_names)} for those terms"
         if not _close(rec["values"], [o["values"][i] for i in idx]) if len(o["values"]) == total else False:
-            yield f"subset({p['terms']}): regenerated values differ from the parent's columns {idx}"
+            yield f"subset({p['spec']}): regenerated values differ from the parent's columns {idx}"
         if len(rec["parent2"]) == total and not _close(rec["values2"], [rec["parent2"][i] for i in idx]):
-            yield f"subset({p['terms']}): on new data the regenerated values differ from the parent's columns {idx}"
+            yield f"subset({p['spec']}): on new data the regenerated values differ from the parent's columns {idx}"
     return
 
 
+def _spec_keys(p):
+    """the requested terms of a tidx/subset probe as sorted-factor keys (None for a structured request)"""
+    sp = p["spec"]
+    if sp["p"] == "structured":
+        return None
+    if sp["p"] == "formula":
+        return [_key(t) for t in sp["terms"]]
+    return [_key(t["t"]) for t in sp["terms"]]
+
+
+def _requested_order(p):
+    sp = p["spec"]
+    if sp["p"] == "formula":
+        return [_key(t) for t in sp["terms"]]
+    if sp["p"] != "terms":
+        return None
+    if p["ordering"] == "none":
+        return [_key(t["t"]) for t in sp["terms"]]
+    degree = lambda t: sum(1 for x in t["lit"] if not x)
+    if p["ordering"] == "degree":
+        return [_key(t["t"]) for t in sorted(sp["terms"], key=degree)]
+    # "sort": by degree, then by the sorted factor expressions
+    return [_key(t["t"]) for t in sorted(sp["terms"], key=lambda t: (degree(t), sorted(t["t"])))]
+
+
+def _specs_reasons(c, o):
+    """ModelSpecs.subset: every part of the result regenerates exactly the parent part's columns for the requested terms"""
+    parent_specs = dict(_leaves(o["specs"]))
+    parent_vals = dict(_leaves(o["parent"]))
+    # the variables required by the whole set of specs are the data columns some part reads
+    rv = o["required_variables"]
+    if "err" in rv:
+        yield f"ModelSpecs.required_variables raised {rv['err']}"
+    else:
+        want = sorted({d["n"] for ps in parent_specs.values() for r in (ps["structure"] or ()) for st in r["sterms"]
+                       for sf in st for d in (sf["vars"] or ()) if d["s"] == "data"})
+        if rv["ok"] != want:
+            yield f"ModelSpecs.required_variables = {rv['ok']}, the parts read the data columns {want}"
+    for p, r, mat in zip(o["probes"], o["probe_out"], o["mats"]):
+        req = _leaves(p["parsed"]) if "node" in p["parsed"] else None
+        if req is None:
+            continue  # no structure: an error is the documented outcome
+        ok_request = True
+        for path, terms in req:
+            ps = parent_specs.get(path)
+            if ps is None or ps["structure"] is None:
+                ok_request = False
+                break
+            have = [_key(x["term"]) for x in ps["structure"]]
+            ks = [_key(t) for t in terms]
+            if any(k not in have for k in ks) or len(set(ks)) != len(ks) or len(set(have)) != len(have):
+                ok_request = False
+                break
+        if not ok_request:
+            continue  # different structure / foreign or repeated terms: an error is the documented outcome
+        if "err" in r:
+            yield f"ModelSpecs.subset({p['parsed']}) raised {r['err']} although every part names terms of the matching part"
+            continue
+        got = dict(_leaves(r["ok"]))
+        if sorted(map(str, got)) != sorted(str(path) for path, _ in req):
+            yield f"ModelSpecs.subset({p['parsed']}): result has parts {sorted(map(str, got))}, requested {[path for path, _ in req]}"
+            continue
+        gm = dict(_leaves(mat)) if mat is not None and "mat_error" not in mat else None
+        if mat is not None and "mat_error" in mat:
+            yield f"ModelSpecs.subset({p['parsed']}).get_model_matrix failed: {mat['mat_error']}"
+        for path, terms in req:
+            ps, pv, g = parent_specs[path], parent_vals.get(path), got[path]
+            rng_of, start = {}, 0
+            for x in ps["structure"]:
+                rng_of[_key(x["term"])] = (start, start + len(x["columns"]))
+                start += len(x["columns"])
+            pnames = [n for x in ps["structure"] for n in x["columns"]]
+            fk = [_key(t) for t in g["formula"]]
+            if fk != [_key(t) for t in terms]:
+                yield f"ModelSpecs.subset: part {path} has terms {g['formula']}, requested {terms}"
+                continue
+            idx = [i for k in fk for i in range(*rng_of[k])]
+            want_names = [pnames[i] for i in idx]
+            if g["names"] != want_names:
+                yield f"ModelSpecs.subset: part {path} has column_names {g['names']}, the parent part's columns for those terms are {want_names}"
+            if gm is None or pv is None or path not in gm:
+                continue
+            if c["mat"] == "narwhals" and c["output"] != "sparse" and len(set(want_names)) != len(want_names):
+                continue
+            mv = gm[path]
+            if mv["labels"] is not None and mv["labels"] != want_names:
+                yield f"ModelSpecs.subset: part {path} regenerates labels {mv['labels']}, parent's {want_names}"
+            if mv["ncols"] != len(want_names):
+                yield f"ModelSpecs.subset: part {path} regenerates {mv['ncols']} columns, parent has {len(want_names)} for those terms"
+            elif len(pv["values"]) == start and not _close(mv["values"], [pv["values"][i] for i in idx]):
+                yield f"ModelSpecs.subset: part {path}: regenerated values differ from the parent's columns {idx}"
+
+
 def classify(c, o, why):
-    if c["kind"] != "meta" or "structure" not in o:
+    if c["kind"] != "meta" or not o.get("structure"):
         return None
     if o.get("_corr"):  # the model did not reproduce the implementation on this case: never suppress
         return None
@@ -948,20 +1614,35 @@ def classify(c, o, why):
 
 
 LEVEL_TEXT = (
-    "Proof: Lean theorems (Props/C10.lean) about the executable model of ModelSpec's derived metadata (Model/SpecMeta.lean), "
-    "for ALL structures: column names = matrix labels (positional assembly: always; name-keyed assembly: iff the names are "
-    "distinct); term ranges are the consecutive blocks of the structure rows and partition [0, ncols); lookups by Term object, "
-    "by printed form (Python dict probing modelled as hash-then-__eq__, FACTOR_MATCHER modelled as the regex behaves) and by "
-    "column name return exactly the block/position; variable_indices[v] is exactly the increasing list of columns owned by rows "
-    "using v (which rows use v enters the model from the harness's own `ast` reading of the factor source, so a variable passed "
-    "by keyword / * / ** / inside a nested call counts; the oracle checks the same on the real maps); subset returns the parent's rows of the chosen terms, so its column names are the parent's names at "
-    "get_term_indices. The model is tied to the code by a differential correspondence on every run; regenerated VALUES of a "
-    "subset are checked on the real code by the oracle."
+    "Proof: 24 Lean theorems (Props/C10.lean) about the executable models of ModelSpec's derived metadata (Model/SpecMeta.lean) "
+    "and of ModelSpecs.subset (Model/SpecsMeta.lean), for ALL structures / formulas / requests: column names = matrix labels "
+    "(positional assembly: always; name-keyed assembly: iff the names are distinct; which assembly each materializer/output "
+    "uses is decided against a table probed on the live package); term ranges are the consecutive blocks of the structure rows "
+    "and partition [0, ncols); lookups by Term object (any factor order, hand-made with repeated factors), by printed form "
+    "(Python dict probing modelled as hash-then-__eq__, FACTOR_MATCHER modelled as the regex behaves), by column name, through "
+    "[] / in / .get(), and get_slice with EVERY kind of key (int, slice, Term, str, other hashable -> ValueError, unhashable -> "
+    "TypeError, unmaterialized spec -> RuntimeError) return exactly the block/position; variable_indices[v] is exactly the "
+    "increasing list of columns owned by rows using v, variable_terms is the exact reverse of term_variables; the factor side: "
+    "term_factors / factors / factor_terms are each term's own factors and the exact reverse map (f in term_factors[t] <=> t in "
+    "factor_terms[f]; for EVERY formula, repeated terms included), factor_variables[f] is exactly the union of what the scoped factors with expression f recorded "
+    "(TypeError iff a record is None), term_variables[t] is the union of factor_variables over the factors evaluated for t, "
+    "variables_by_source partitions variables by source and required_variables is the class 'data'; subset: the order of a "
+    "request is a stable sort by degree / as given / sorted (request_order), subset succeeds iff every requested term is a term "
+    "of the spec (else ValueError, never KeyError), returns the parent's rows of those terms in the request's order, two "
+    "requests naming the same terms in any order / factor order give rearrangements of each other, a request of all terms "
+    "gives the spec back, the subset's formula holds the PARENT'S OWN terms, and regenerated blocks are the parent's blocks; "
+    "ModelSpecs.subset is _map of the request with, at every part, the subset of the spec at the same path, and each way it "
+    "fails (no structure, foreign key, index beyond a tuple, tuple/nested specs at a part's path, foreign term) is modelled; "
+    "ModelSpecs.required_variables is the union of the parts'. "
+    "The models are tied to the code by a differential correspondence on every run; regenerated VALUES of a subset are checked "
+    "on the real code by the oracle."
 )
 LEVEL_NOTE = (
-    "Trusted: Lean kernel + propext/Quot.sound; the hand model of model_spec.py validated by correspondence on generated "
-    "formulas (non-alphabetical interactions, zero-column terms, multi-column transforms, adversarial column names, "
+    "Trusted: Lean kernel + propext/Quot.sound/Classical.choice; the hand models of model_spec.py validated by correspondence on "
+    "generated formulas (non-alphabetical interactions, zero-column terms, multi-column transforms, adversarial column names, "
     "Python-call factors with positional/keyword/starred arguments over data columns and context values, "
-    "pandas/numpy/sparse, pandas/narwhals materializers); hash(str) injective; which columns a term generates and what a "
-    "replayed row evaluates to are parameters (C02/C03/C04)."
+    "pandas/numpy/sparse, pandas/narwhals materializers, unmaterialized specs, structured formulas); hash(str) injective; "
+    "which columns a term generates, what a replayed row evaluates to, the parse of a request up to ordering, role/source of "
+    "a variable are parameters (C02/C03/C04/C01/C17). Not modelled: factor_contrasts values (C11), required_variables of an "
+    "unmaterialized spec (C17), from_spec/update/get_model_matrix/differentiate plumbing (C05/C06/C20)."
 )
